@@ -62,4 +62,50 @@ theorem mini_range_reachable (v4 : Bool) (ops : List GOp) :
   have c := rootI_reachable v4 ops hw hb
   exact mini_in_root fit (rootCoverB_of hb c) hroot hlt
 
+/-- the sectors of a chain exist (the FAT is as long as the file has sectors) -/
+theorem present_of_isChain {p : P} (inv : Inv p) {a : Nat} {l : List Nat} (c : IsChain p.fat a l) : Present p l := by
+  intro x hx
+  obtain ⟨w, hw, _⟩ := c.used x hx
+  have hx1 : x < p.sectors.size := by
+    rw [inv.fat.secs, ← inv.fat.size]; exact lt_of_get hw
+  exact ⟨_, Array.getElem?_eq_getElem hx1⟩
+
+/-- **in every reachable state of the store machine, zero-filling any mini sector of the MiniFAT makes
+it read as 64 zeros and leaves every other mini sector and every sector outside the mini stream as
+it was** — `miniZero_blk` with all of its premises discharged from the invariants of the reachable
+states (sector sizes, the walkable duplicate-free root chain, the range of the mini sector) -/
+theorem mini_zero_reachable (v4 : Bool) (ops : List GOp) :
+    let g0 : G := { p := Phys.create v4, L := fun _ => 0 }
+    WritesInRange g0 ops → MiniBounded g0 ops → (grun g0 ops).p.fat.size ≤ MAXREG + 1 →
+    ∀ m, m < (grun g0 ops).p.miniFat.size →
+    ∃ root p', chainIds (grun g0 ops).p (grun g0 ops).p.rootStart = .ok root ∧
+      miniWriteAt (grun g0 ops).p m 0 (List.replicate MINI 0) = .ok p' ∧
+      miniBlk p' root m = List.replicate 64 0 ∧
+      (∀ m2, m2 ≠ m → m2 < (grun g0 ops).p.miniFat.size → miniBlk p' root m2 = miniBlk (grun g0 ops).p root m2) := by
+  intro g0 hw hm hb m hlt
+  have j := regLen_reachable v4 ops hw hb
+  have fit := (miniFit_reachable v4 ops hw hm hb).1
+  have c := rootI_reachable v4 ops hw hb
+  have hcov := rootCoverB_of hb c
+  obtain ⟨l, ml, hc, _⟩ := c
+  -- the root chain exists: the MiniFAT is not empty, so the mini stream is not
+  have hroot : ∃ ch, l = l ∧ (grun g0 ops).p.rootStart ≠ END ∧ IsChain (grun g0 ops).p.fat (grun g0 ops).p.rootStart l ∧ ch = l := by
+    rcases ml with ⟨he, hl⟩ | ⟨hne, ch⟩
+    · exfalso
+      have hr : (grun g0 ops).p.miniFat.size ≤ (grun g0 ops).p.rootLen / 64 := fit.root
+      rw [hl] at hc
+      have h0 : (grun g0 ops).p.rootLen = 0 := by simpa using hc
+      rw [h0] at hr
+      have : (grun g0 ops).p.miniFat.size = 0 := by simpa using hr
+      omega
+    · exact ⟨l, rfl, hne, ch, rfl⟩
+  obtain ⟨_, _, hne, ch, _⟩ := hroot
+  have hids : chainIds (grun g0 ops).p (grun g0 ops).p.rootStart = .ok l := chainIds_of_isChain hb ch
+  have hp : Present (grun g0 ops).p l := present_of_isChain j.jc.inv ch
+  have nd : l.Nodup := isChain_nodup ch
+  have hin : ∀ m', m' < (grun g0 ops).p.miniFat.size → m' / (grun g0 ops).p.per < l.length :=
+    fun m' h' => mini_in_root fit hcov hids h'
+  obtain ⟨p', hw', hz, hfr⟩ := miniZero_blk j.ss hids hp nd (hin m hlt)
+  exact ⟨l, p', hids, hw', hz, fun m2 hne2 h2 => hfr m2 hne2 (hin m2 h2)⟩
+
 end CfbVerif.Phys
